@@ -322,7 +322,9 @@ func copySamples(f *mp4.File, file []byte, a, b uint32, workLen int, orc []int, 
 	p := hx.Try(func() {
 		err = f.CopySampleData(w, rs, f.Moov.Trak, a, b, ws)
 	})
-	return resStr(w.b, err, p), rs
+	res := resStr(w.b, err, p)
+	copyWithGuardedWS(f, f.Moov.Trak, file, a, b, workLen, orc, zeof, res) // hygiene.go 2(a)
+	return res, rs
 }
 
 func (pf *progFile) tableLine() string {
